@@ -14,7 +14,7 @@ PROPERTY = "C14"
 CFG = dict(round="uf", nl_uf=True, div="assume", sqrt="assume")
 HEAVY = {"aroon", "ADX", "RSI", "Supertrend", "OBV", "KC", "STOCH", "TSI", "MACD", "HMA", "Counter"}
 COMPOSITE = {"HMA", "ATR", "STDEV", "BBANDS", "KC", "Supertrend", "STDEVTHRES", "RSI", "MACD", "STOCH", "TSI", "ADX", "VWAP"}
-OPS = ["append", "calc", "calcX", "purge", "purgeX", "recalc", "recalcX", "cidx+", "cidx-1", "cidx-2", "remove", "add"]
+OPS = ["append", "calc", "calcX", "purge", "purgeX", "recalc", "recalcX", "cidx+", "cidx-1", "cidx-2", "remove", "add", "addT"]
 
 
 def obligations(tier):
@@ -29,7 +29,7 @@ def obligations(tier):
         if name == "ADX":
             n = w + 1
         for first in OPS:
-            if heavy and tier == "quick" and first not in ("append", "purgeX", "recalcX", "cidx-1", "remove"):
+            if heavy and tier == "quick" and first not in ("append", "purgeX", "recalcX", "cidx-1", "remove", "addT"):
                 continue
             obs.append(Ob(f"{spec_name((kind, name, kw))}/first={first}/len<={L}/n={n}", dict(spec=[kind, name, kw], n=n, first=first, L=(L if not (heavy and tier == "quick") else 2), heavy=heavy), CFG,
                           weight=n * (10 if heavy else 1), budget_s=900 if tier == "quick" else 7200, max_paths=50000))
@@ -46,12 +46,12 @@ def state(hx):
 
 
 def programs(first, L, heavy):
-    second = OPS if not heavy else ["append", "calc", "purgeX", "cidx-1", "add"]
+    second = OPS if not heavy else ["append", "calc", "purgeX", "cidx-1", "add", "addT", "purge"]
     progs = [(first,)]
     if L >= 2:
         progs += [(first, b) for b in second]
     if L >= 3 and not heavy:
-        progs += [(first, b, c) for b in OPS for c in ("append", "calc", "purgeX", "recalcX", "cidx-1", "cidx+", "remove", "add")]
+        progs += [(first, b, c) for b in OPS for c in ("append", "calc", "purgeX", "recalcX", "cidx-1", "cidx+", "remove", "add", "purge")]
     if L >= 3 and heavy:
         progs += [(first, b, c) for b in ("calc", "append", "recalcX") for c in ("purgeX", "recalcX", "remove")]
     return progs
@@ -76,6 +76,7 @@ def run(ctx, P):
         src = clone(cs)
         hx = Hexital("hx", src[: n - pending0], [build_any(spec), build("WMA", dict(period=2, name_suffix="by"))])
         registered = True
+        has_tf = False
         clean_x = clean_all = True          # X's readings complete / every registered indicator's readings complete
         if P.get("fresh"):
             clean_x = clean_all = False
@@ -145,6 +146,13 @@ def run(ctx, P):
                 registered = False
                 clean_x = False
                 continue
+            if op == "addT":
+                # a further member that brings its own timeframe joins the populated Hexital: a new candle list is seeded
+                if not has_tf:
+                    hx.add_indicator(build("SMA", dict(period=2, name_suffix="tf"), timeframe="T2"))
+                    has_tf = True
+                    clean_all = False
+                continue
             if op == "add":
                 if not registered:
                     hx.add_indicator(build_any(spec))
@@ -155,6 +163,8 @@ def run(ctx, P):
         hx.calculate()
         cur = clone(cs)[:pos]
         members = [build_any(spec), build("WMA", dict(period=2, name_suffix="by"))] if registered else [build("WMA", dict(period=2, name_suffix="by"))]
+        if has_tf:
+            members.append(build("SMA", dict(period=2, name_suffix="tf"), timeframe="T2"))
         batch = Hexital("b", cur, members)
         batch.calculate()
         for nm in batch.indicators:
@@ -171,7 +181,7 @@ def run(ctx, P):
 
 
 META = dict(
-    bounds=dict(quick="all operation sequences of length <= 2 over {append, calculate, calculate(X), purge, purge(X), recalculate, recalculate(X), calculate_index(X, last / -1 / -2), remove_indicator(X), add_indicator(X)} for the non-branching indicators (value-branching ones: 5 first ops x 5 second ops), on a Hexital with X and a bystander WMA(2) named WMA_2_by; n = warm-up+3..4 candles, 2 of them pending for append; the composite indicators additionally from the initial state 'registered, never calculated' with programs of length <= 3",
+    bounds=dict(quick="all operation sequences of length <= 2 over {append, calculate, calculate(X), purge, purge(X), recalculate, recalculate(X), calculate_index(X, last / -1 / -2), remove_indicator(X), add_indicator(X), add_indicator(a member with its own timeframe T2)} for the non-branching indicators (value-branching ones: 5 first ops x 5 second ops), on a Hexital with X and a bystander WMA(2) named WMA_2_by; n = warm-up+3..4 candles, 2 of them pending for append; the composite indicators additionally from the initial state 'registered, never calculated' with programs of length <= 3",
                 thorough="length <= 3 (third op from 8), n+1, periods 2 and 3"),
     stubs=["exact real arithmetic, uninterpreted rounding and products"],
     assumptions=["calculate_index is only issued when X's readings are complete (the property's precondition)"],
